@@ -664,14 +664,54 @@ func (w *gWorld) check(s *gStep, n int) (mis *gMis, dupMis *gMis) {
 	return nil, dupMis
 }
 
+// gWalkVals: WalkVals of the specification over the given buckets.
+func gWalkVals(bucket map[string][]string, oq gOQ) []string {
+	var vals []string
+	for _, v := range gVals {
+		if gInVals(v) {
+			vals = append(vals, v)
+		}
+	}
+	if oq.Dir == "desc" {
+		for i, j := 0, len(vals)-1; i < j; i, j = i+1, j-1 {
+			vals[i], vals[j] = vals[j], vals[i]
+		}
+	}
+	var out []string
+	past := oq.Cur == "none"
+	for _, v := range vals {
+		if past {
+			for range bucket[v] {
+				out = append(out, v)
+			}
+		}
+		if v == oq.Cur {
+			past = true
+		}
+	}
+	if oq.Lim > 0 && len(out) > oq.Lim {
+		out = out[:oq.Lim]
+	}
+	return out
+}
+
 // checkOrdered runs the ordered queries in view u. The oracle: the walk visits the
 // committed index in value order (order among equal values unspecified), strictly past
 // the cursor, first `lim` positions; each visited key is fetched through the view and
 // post-filtered. The expected value sequence of the walk comes from the specification.
 func (w *gWorld) checkOrdered(s *gStep, n int, u string, t Tx, dirty bool) *gMis {
 	exp := s.Views[u]
+	// Committed index state the walk runs over. After a NestedCommit whose writers
+	// conflicted the as-written specification predicts a stale index (s.Idx != s.KV); this
+	// point is only reached when the real index equals the inverse of the table (the Get
+	// comparison came first), i.e. the window did not open: walk over s.KV then.
+	idx := s.Idx
+	window := fmt.Sprint(s.Idx) != fmt.Sprint(s.KV)
+	if window {
+		idx = s.KV
+	}
 	bucket := map[string][]string{}
-	for k, v := range s.Idx {
+	for k, v := range idx {
 		if v != "none" {
 			bucket[v] = append(bucket[v], k)
 		}
@@ -716,6 +756,9 @@ func (w *gWorld) checkOrdered(s *gStep, n int, u string, t Tx, dirty bool) *gMis
 		}
 		what := fmt.Sprintf("ordered %s after=%s limit=%d tree=%d in %s", oq.Dir, oq.Cur, oq.Lim, ti+1, u)
 		walk := s.Ord[j]
+		if window {
+			walk = gWalkVals(bucket, oq)
+		}
 		// runs of the walk
 		type run struct {
 			v string
@@ -740,7 +783,7 @@ func (w *gWorld) checkOrdered(s *gStep, n int, u string, t Tx, dirty bool) *gMis
 				}
 			}
 			cnt := 0
-			for pos < len(res) && s.Idx[gKeyName(res[pos].ID)] == r.v {
+			for pos < len(res) && idx[gKeyName(res[pos].ID)] == r.v {
 				k := gKeyName(res[pos].ID)
 				if !cand[k] || seen[res[pos].ID] || exp[k] != res[pos].Val {
 					return &gMis{cls, what, fmt.Sprintf("walk %v; candidates of %q: %v", walk, r.v, cand), fmt.Sprintf("%v", res)}
